@@ -26,7 +26,7 @@ Proof. intros. repeat apply conj; reflexivity. Qed.
 
 Lemma nil_impl : forall fp o t d, dec_impl fp o t d INil = Ok (zero_of t).
 Proof.
-  intros fp o t d. unfold dec_impl. destruct (fp && has_fastpath t); [reflexivity|].
+  intros fp o t d. unfold dec_impl, dec_impl_x. destruct (fp && has_fastpath t); [reflexivity|].
   destruct t; reflexivity.
 Qed.
 
@@ -51,35 +51,6 @@ Qed.
 Lemma builtin_is_merge : forall o t d it, scalar_ty t -> dec_builtin t d it = merge o t d it.
 Proof. intros o t d it H. rewrite merge_scalar by exact H. reflexivity. Qed.
 
-(* ---- the generated fast path agrees with the reflection path for slices / maps of scalars ---- *)
-Lemma fast_slice_is_refl : forall o e, scalar_ty e -> forall l d,
-  dec_fast o (TSlice e) d (IArr l) = dec_refl false o (TSlice e) d (IArr l).
-Proof.
-  intros o e He l d. unfold dec_fast. cbn [dec_refl peel]. cbv zeta.
-  set (old := match d with VSlice (Some xs) => xs | _ => [] end).
-  match goal with |- _ = (do r <- (do xs <- ?F l old ;; _) ;; _) =>
-    assert (G : forall l old, fast_slice_go o e l old = F l old) end.
-  { clear l old. induction l as [|x r IH]; intro old; [reflexivity|].
-    cbn [fast_slice_go]. rewrite IH.
-    rewrite (refl_scalar false o e _ x He).
-    unfold fast_slice_elem. destruct He as [-> | ->]; reflexivity. }
-  rewrite G. destruct (_ l old); reflexivity.
-Qed.
-
-Lemma fast_map_is_refl : forall o e, scalar_ty e -> forall kvs d,
-  dec_fast o (TMap e) d (IMap kvs) = dec_refl false o (TMap e) d (IMap kvs).
-Proof.
-  intros o e He kvs d. unfold dec_fast. cbn [dec_refl peel]. cbv zeta.
-  set (old := match d with VMap (Some m) => m | _ => [] end).
-  match goal with |- _ = (do r <- (do m <- ?F kvs old ;; _) ;; _) =>
-    assert (G : forall kvs m, fast_map_go o e kvs m = F kvs m) end.
-  { clear kvs old. induction kvs as [|[k x] r IH]; intro m; [reflexivity|].
-    cbn [fast_map_go]. destruct k; try reflexivity.
-    rewrite (refl_scalar false o e _ x He).
-    destruct He as [-> | ->]; (destruct (match x with INil => _ | _ => _ end); [apply IH|reflexivity|reflexivity]). }
-  rewrite G. destruct (_ kvs old); reflexivity.
-Qed.
-
 Lemma paths_refuted : exists o d it,
   dec_fast o (TSlice TIface) d it <> dec_refl false o (TSlice TIface) d it.
 Proof.
@@ -91,7 +62,7 @@ Qed.
 Lemma idem_scalar : forall fp o t d it r, scalar_ty t ->
   dec_impl fp o t d it = Ok r -> dec_impl fp o t r it = Ok r.
 Proof.
-  intros fp o t d it r H E. destruct H as [-> | ->]; unfold dec_impl in *; simpl in *; exact E.
+  intros fp o t d it r H E. destruct H as [-> | ->]; unfold dec_impl, dec_impl_x in *; simpl in *; exact E.
 Qed.
 
 Lemma idem_nil : forall fp o t d, dec_impl fp o t (zero_of t) INil = dec_impl fp o t d INil.
